@@ -53,6 +53,56 @@ def _struct(q: str) -> bool:
     return any(c in STRUCT_CLASSES for c in cls.split("|"))
 
 
+def _lossy_snapshot(stmts, name: str):
+    """The statement that makes `name` a keyed collection whose key is not the collected element itself, or None."""
+
+    def elem_vars(scope):
+        out = set()
+        for n in ast.walk(scope):
+            if isinstance(n, (ast.For, ast.comprehension)) and isinstance(n.target, ast.Name):
+                out.add(n.target.id)
+        return out
+
+    def key_is_elem(k, scope):
+        if isinstance(k, ast.Name) and k.id in elem_vars(scope):
+            return True
+        return isinstance(k, ast.Call) and dotted_of(k.func) == "id"
+
+    for s in stmts:
+        for n in ast.walk(s):
+            if isinstance(n, (ast.Assign, ast.AnnAssign)):
+                tg = n.targets if isinstance(n, ast.Assign) else [n.target]
+                v = n.value
+                for t in tg:
+                    if isinstance(t, ast.Name) and t.id == name and v is not None:
+                        if isinstance(v, ast.DictComp) and not key_is_elem(v.key, v):
+                            return n
+                        if isinstance(v, ast.Call) and dotted_of(v.func) == "dict" and (v.args or v.keywords):
+                            return n
+                    if isinstance(t, ast.Subscript) and isinstance(t.value, ast.Name) and t.value.id == name and not isinstance(t.slice, ast.Slice):
+                        # name[key] = …  on a dict-like snapshot
+                        if _is_keyed(stmts, name) and not key_is_elem(t.slice, s):
+                            return n
+            if isinstance(n, ast.Call) and isinstance(n.func, ast.Attribute) and isinstance(n.func.value, ast.Name) and n.func.value.id == name:
+                if n.func.attr in ("update", "setdefault") and _is_keyed(stmts, name):
+                    return n
+    return None
+
+
+def _is_keyed(stmts, name: str) -> bool:
+    for s in stmts:
+        for n in ast.walk(s):
+            if isinstance(n, (ast.Assign, ast.AnnAssign)):
+                tg = n.targets if isinstance(n, ast.Assign) else [n.target]
+                if any(isinstance(t, ast.Name) and t.id == name for t in tg):
+                    v = n.value
+                    if isinstance(v, (ast.Dict, ast.DictComp)) or (isinstance(v, ast.Call) and dotted_of(v.func) in ("dict", "collections.OrderedDict", "OrderedDict")):
+                        return True
+                    if isinstance(n, ast.AnnAssign) and norm(n.annotation).lower().startswith(("dict", "mapping", "mutablemapping")):
+                        return True
+    return False
+
+
 def rule_r1(ctx, ef: Effects):
     for key in ("onnx_ir._io:save", "onnx_ir._safetensors:save_safetensors"):
         f = ctx.repo.func(key)
@@ -105,6 +155,14 @@ def rule_r1(ctx, ef: Effects):
         reads_const = any("const_value" in norm(s) for s in body[: body.index(tr)])
         ctx.check("R1", f"{f.local}: snapshot {sorted(snap)} taken before the try", bool(snap) and reads_const, f, tr,
                   "the finally restores from data that was not captured before the try", how="names read by the finally are bound before the try from const_value")
+        # the snapshot keeps one entry per initializer Value: a sequence, or a collection keyed by the Value itself
+        for name in sorted(snap):
+            lossy = _lossy_snapshot(body[: body.index(tr)], name)
+            ctx.check("R1", f"{f.local}: snapshot `{name}` keeps one entry per initializer", lossy is None, f, lossy or tr,
+                      f"the snapshot `{name}` is a collection keyed by something other than the Value object "
+                      f"(`{norm(lossy) if lossy is not None else ''}`): initializer names are scoped per graph, so two graphs' "
+                      "same-named initializers collapse into one entry and the other keeps the tensor written by the save path",
+                      how="binding and growth operations of the snapshot before the try classified (sequence / keyed by element / keyed by other)")
         # the finally cannot be skipped: it restores unconditionally in a loop over the snapshot
         fin_loops = [s for s in tr.finalbody if isinstance(s, ast.For)]
         ok = bool(fin_loops) and not any(isinstance(x, (ast.If, ast.Try, ast.Return, ast.Break)) for s in tr.finalbody for x in ast.walk(s))
